@@ -321,7 +321,11 @@ parser! {
     // 1.2.3.2 Time of day and date
     rule time_of_day() -> TimeOfDayLiteral = tok(TokenType::TimeOfDay) tok(TokenType::Hash) d:daytime() { TimeOfDayLiteral::new(d) }
     rule daytime() -> Time = h:day_hour() tok(TokenType::Colon) m:day_minute() tok(TokenType::Colon) s:day_second() {?
-      // The fraction is in units of 10^-15 seconds
+      // The fraction is in units of 10^-15 seconds. A part of a nanosecond cannot
+      // be represented and is not silently dropped.
+      if s.femptos % 1_000_000 != 0 {
+        return Err("nanosecond");
+      }
       let nanosecond: u32 = (s.femptos / 1_000_000).try_into().map_err(|e| "nanosecond")?;
       Time::from_hms_nano(h.try_into().map_err(|e| "hour")?, m.try_into().map_err(|e| "min")?, s.whole.try_into().map_err(|e| "sec")?, nanosecond).map_err(|e| "time")
     }
